@@ -12,7 +12,7 @@ from vpkit import common, zoo
 
 ID = "C01"
 N = {"quick": 420, "thorough": 12000}
-BUDGET = {"quick": 240.0, "thorough": 1500.0}
+BUDGET = {"quick": 240.0, "thorough": 700.0}
 RULE = ("case = (zoo input, method, min_branch_length, constr_iterations, rescaling, phasing, "
         "time scale 1e-6..1e12 via mutation rate / population size); distinct by "
         "(topology+mutation hash, method, option tuple); non-trivial = date() returned and "
